@@ -332,7 +332,7 @@ class CodeGenerator(nunavut._generators.AbstractGenerator):
         if self._post_processors is not None:
             for pp in self._post_processors:
                 if isinstance(pp, nunavut._postprocessors.LinePostProcessor):
-                    line_pps.append(pp)
+                    line_pps.append(_reset_line_pp(pp))
                 elif isinstance(pp, nunavut._postprocessors.FilePostProcessor):
                     file_pps.append(pp)
                 else:
@@ -993,6 +993,8 @@ class SupportGenerator(CodeGenerator):
         target: pathlib.Path,
         line_pps: typing.List["nunavut._postprocessors.LinePostProcessor"],
     ) -> None:
+        for line_pp in line_pps:
+            _reset_line_pp(line_pp)
         with open(str(target), "w", encoding="utf-8") as target_file:
             with open(str(resource), "r", encoding="utf-8") as resource_file:
                 for resource_line in resource_file:
@@ -1023,3 +1025,16 @@ def _rejoin_split_crlf(chunks: typing.Iterable[str]) -> typing.Generator[str, No
         yield part
     if carry:
         yield carry
+
+
+def _reset_line_pp(
+    line_pp: "nunavut._postprocessors.LinePostProcessor",
+) -> "nunavut._postprocessors.LinePostProcessor":
+    """
+    Line post-processors are shared by all files of a run: tell a processor that a new file begins so that state it
+    keeps between lines (e.g. the empty-line counter) does not leak from the previous file. Returns the processor.
+    """
+    reset = getattr(line_pp, "reset", None)
+    if callable(reset):
+        reset()
+    return line_pp
